@@ -187,11 +187,18 @@ def main():
     job = json.loads(sys.stdin.read())
     S = load_server_module(job.get("import_order", 0))
     res = {"defaults": defaults_fingerprint(S), "runs": []}
-    for cfg in job["configs"]:
+    # the order in which this process builds and questions the ECUs differs between environments (`order`: a permutation of the
+    # configuration indices): what an ECU answers must not depend on which other ECUs the process has seen before
+    n = len(job["configs"])
+    order = job.get("order") or list(range(n))
+    runs = [None] * n
+    for i in order:
+        cfg = job["configs"][i]
         try:
-            res["runs"].append(transcript(S, cfg, job.get("clock_base", 0.0)))
+            runs[i] = transcript(S, cfg, job.get("clock_base", 0.0))
         except Exception as e:
-            res["runs"].append({"error": type(e).__name__ + ": " + str(e)[:200]})
+            runs[i] = {"error": type(e).__name__ + ": " + str(e)[:200]}
+    res["runs"] = runs
     sys.stdout.write(json.dumps(res, sort_keys=True, separators=(",", ":")))
 
 
